@@ -1,12 +1,13 @@
 #!/usr/bin/env python3
 """Writes /verif/MANIFEST.json from bin/specs.py + tools/manifest_meta.py (kept in sync by construction)."""
 import json, os, sys
-sys.path.insert(0, "/verif/bin")
-sys.path.insert(0, "/verif/tools")
+V = os.path.dirname(os.path.dirname(os.path.abspath(__file__)))
+sys.path.insert(0, V + "/bin")
+sys.path.insert(0, V + "/tools")
 import specs, manifest_meta as mm
 
 checks = []
-for pid in sorted(specs.SPECS):
+for pid in sorted(mm.REGISTERED):
     sp = specs.SPECS[pid]
     meta = mm.META[pid]
     checks.append(dict(
@@ -31,12 +32,12 @@ m = dict(
         add_only=True,
     ),
     engines=[dict(name="kani-cbmc", path="/verif/bin/check",
-                  serves_properties=sorted(specs.SPECS),
+                  serves_properties=sorted(mm.REGISTERED),
                   kind_free_text="bounded model checking of the compiled Rust code: Kani 0.68.0 -> CBMC 6.11.0 -> CaDiCaL/kissat; "
                                  "counterexamples replayed natively against the real dependency tree before being reported")],
     checks=checks,
     notes=mm.NOTES,
     not_applicable=mm.NOT_APPLICABLE,
 )
-json.dump(m, open("/verif/MANIFEST.json", "w"), indent=1)
+json.dump(m, open(V + "/MANIFEST.json", "w"), indent=1)
 print("MANIFEST.json:", len(checks), "checks,", len(mm.NOT_APPLICABLE), "not applicable")
